@@ -8,7 +8,7 @@ use crate::explore::*;
 use crate::rattr::*;
 use serde_json::{Value, json};
 
-const RULE: &str = "(a) every document over a 15-event alphabet (start tags with varied attribute syntax, end tags, ASCII and multi-byte text, comments, doctype; len<=n), whose byte ranges the generator knows, x {observers of everything, handlers that rewrite earlier content} x encodings {UTF-8, Shift_JIS} x schedules (L0, every 1-cut, 2-cuts, byte-wise): every reported range == the generator's range (tags '<'..'>', attribute name/value per an independent attribute parser, comments, doctype; text chunk ranges contiguous and covering exactly their node); (b) every F<=k tag-soup input: ranges in bounds, per handler never overlapping or going backwards, tags start with '<', and identical under every schedule; non-trivial = distinct (document, config) with >=1 located event";
+const RULE: &str = "(a) every document over a 17-event alphabet (start tags with varied attribute syntax, end tags, ASCII and multi-byte text, comments, doctype; len<=n), whose byte ranges the generator knows, x {observers of everything, handlers that rewrite earlier content} x encodings {UTF-8, Shift_JIS} x schedules (L0, every 1-cut, 2-cuts, byte-wise): every reported range == the generator's range (tags '<'..'>', attribute name/value per an independent attribute parser, comments, doctype; text chunk ranges contiguous and covering exactly their node); (b) every F<=k tag-soup input: ranges in bounds, per handler never overlapping or going backwards, tags start with '<', and identical under every schedule; non-trivial = distinct (document, config) with >=1 located event";
 
 fn doc_alphabet() -> Vec<DEv> {
     let o = |name: &str, raw: &str| DEv::Open { name: name.into(), attrs: AttrSet { raw: raw.into(), parsed: vec![] }, slash: false };
@@ -20,6 +20,8 @@ fn doc_alphabet() -> Vec<DEv> {
         o("a", " k"),
         o("a", " k= "),
         o("a", " k=\"\" j"),
+        o("a", " w=5\" c=c"),
+        o("a", " t=it's' b'"),
         DEv::Open { name: "br".into(), attrs: AttrSet::none(), slash: true },
         o("x-long-custom-element", " data-x=1"),
         DEv::close("a"),
@@ -263,7 +265,46 @@ pub fn run_check(ctx: &Ctx) -> i32 {
         }
     });
     if !ctx.capped.load(std::sync::atomic::Ordering::Relaxed) {
-        ctx.level_done(&format!("(a) D<={max_len} over 15 events x 3 configs x L0,L1,L2,LB: ranges == generator ranges"));
+        ctx.level_done(&format!("(a) D<={max_len} over 17 events x 3 configs x L0,L1,L2,LB: ranges == generator ranges"));
+    }
+    // (a') long text nodes: more than the decoder's 1 KiB buffer of ASCII followed by non-ASCII
+    // or malformed bytes, in one write and cut around the boundary
+    {
+        let cases: Vec<(&str, Vec<u8>)> = vec![("windows-1252", vec![0xE9, b'b', b'c']), ("UTF-8", vec![0xFF, b'b']), ("UTF-8", "\u{e9}\u{20ac}z".as_bytes().to_vec()), ("Shift_JIS", vec![0x83, 0x41, 0x83])];
+        let lens: Vec<usize> = vec![1000, 1021, 1022, 1023, 1024, 1025, 1500, 2047, 2048, 2050];
+        par_for(cases.len() * lens.len(), 1, |j| {
+            let (enc, tail) = &cases[j / lens.len()];
+            let n = lens[j % lens.len()];
+            let p = Prepared::new(observer_cfg(enc)).unwrap();
+            let mut text = vec![b'a'; n];
+            text.extend_from_slice(tail);
+            // rendered by hand: the text bytes are not valid UTF-8 in every case
+            let mut bytes = b"<a>".to_vec();
+            let ts = bytes.len();
+            bytes.extend_from_slice(&text);
+            let te = bytes.len();
+            bytes.extend_from_slice(b"</a>");
+            let evs = vec![DEv::open("a"), DEv::Text(String::new()), DEv::close("a")];
+            let r = Rendered { spans: vec![(0, ts), (ts, te), (te, bytes.len())], bytes };
+            let mut scheds = vec![Sched::whole()];
+            for c in [ts + 1, ts + 1023, ts + 1024, ts + 1025, ts + n, ts + n + 1, te - 1] {
+                if c > 0 && c < r.bytes.len() {
+                    scheds.push(Sched { cuts: vec![c], empty_at: None });
+                }
+            }
+            scheds.push(Sched { cuts: (1..r.bytes.len()).step_by(511).collect(), empty_at: None });
+            for s in &scheds {
+                let (m, calls, _) = check_known(&p, &evs, &r, s);
+                ctx.exec(calls);
+                ctx.validated(1);
+                if let Some(msg) = m {
+                    let case = json!({"kind": "long", "enc": enc, "n": n, "tail_hex": hex(tail), "sched": s});
+                    let (p2, e2, r2, s2) = (Prepared::new(observer_cfg(enc)).unwrap(), evs.clone(), Rendered { bytes: r.bytes.clone(), spans: r.spans.clone() }, s.clone());
+                    ctx.violation(msg, case, &|| check_known(&p2, &e2, &r2, &s2).0);
+                }
+            }
+        });
+        ctx.level_done("(a') text nodes of 1000..2050 ASCII bytes + non-ASCII / malformed tail x 4 encodings x single write and cuts around the 1 KiB decoder buffer");
     }
     // (b)
     let soup_cfgs: Vec<Prepared> = vec![Prepared::new(observer_cfg("UTF-8")).unwrap(), Prepared::new(rewriting_cfg("UTF-8")).unwrap()];
